@@ -217,7 +217,7 @@ def run(tier, seed):
         events, _ = conf.run(cfg, cfg, "fpx", DRV, cases, SPEC, nontrivial=nontrivial, min_per_shard=100,
                              tlc_timeout=2400, driver_timeout=1200)
         _count_ops(ev, cfg, events)
-    if os.environ.get("C10_EXT") == "1":
+    if os.environ.get("C10_EXT") != "0":
         ext_sweep(ev, conf, rng, tier)
     return conf.finish()
 
